@@ -44,6 +44,7 @@ def check(rep, tier, seed, replay):
     samples = []
     all_mism = []
     unconfirmed = 0
+    cert_tried = cert_ok = 0
     for name, progs in [("corpus", None)] + list(program_stream(tier, seed, quick_random=3000, thorough_random=30000)):
         if name == "corpus":
             lines = core.corpus_lines("C05")
@@ -68,6 +69,19 @@ def check(rep, tier, seed, replay):
             if kind in ("refuted", "repeat", "halt", "spinout", "blank"):
                 need.setdefault(line.split(" | ", 1)[1], []).append((line, out))
         progs_j = sorted(need)
+        # verdicts certified by theorem: the repaired wrapper (py_segment_fixed_sound, no hypothesis)
+        # gives the same verdict kind for the same program, goal and segment limit
+        cl = [(line, out) for p_ in progs_j for line, out in need[p_]]
+        cl = cl if tier == "thorough" else cl[:6000]
+        fx = []
+        for line, out in cl:
+            op = line.split(" ")[0]
+            g = op.split("_", 1)[1]
+            segs = line.split(" | ")[0].split(" ")[-1]
+            fx.append(f"seg_{g}_fix {segs} | {line.split(' | ', 1)[1]}")
+        fo = core.run_driver(fx)
+        cert_tried += len(cl)
+        cert_ok += sum(1 for (line, out), o in zip(cl, fo) if o.split("(")[0] == out.split("(")[0])
         facts = dict(zip(progs_j, [parse_kv("x " + o) for o in core.run_driver([f"l0run {budget} | {p}" for p in progs_j])]))
         bad, retry = [], []
         for p in progs_j:
@@ -130,6 +144,11 @@ def check(rep, tier, seed, replay):
                        "Distinct non-trivial = distinct (goal, program, verdict kind) judged true." % (budget, big_budget))
     rep.cov["samples"] = samples[:6]
     rep.cov["answer_kinds"] = kinds
+    rep.cov["verdicts_checked_against_repaired_wrapper"] = cert_tried
+    rep.cov["verdicts_certified_by_theorem"] = cert_ok
+    rep.cov["explanation"] = ("a verdict of the real code is certified by theorem when the model of the repaired wrapper (table size from keys and "
+                              "instruction contents; py_segment_fixed_sound holds for it with no hypothesis) gives the same verdict kind for the same "
+                              "program, goal and segment limit. Certified verdicts need no step budget; the L0 run judges all of them anyway.")
     rep.cov["positive_verdicts_unconfirmed_in_big_budget"] = unconfirmed
     rep.cov["correspondence_mismatches"] = len(all_mism)
     rep.assumptions.append(f"L0 oracle budget {budget} base steps: an event later than that is not seen")
